@@ -239,7 +239,8 @@ func c20order(text string) string {
 	var b strings.Builder
 	for _, re := range []*regexp.Regexp{reC20global, reC20alias, reC20ifunc, reC20func} {
 		for _, m := range re.FindAllStringSubmatch(text, -1) {
-			b.WriteString(strings.Trim(m[1], `"`) + " ")
+			// the printer may drop quotes the input used redundantly (@"-1" is @-1).
+			b.WriteString("@" + strings.Trim(m[1][1:], `"`) + " ")
 		}
 		b.WriteString("| ")
 	}
